@@ -47,10 +47,20 @@ SigRoutes == {"free-sign1", "free-sign", "free-counter", "free-counter-nosign", 
               "sign1-builder", "sign1-builder-detached", "sign1-builder-try", "sign-builder", "sign-builder-detached", "sign-builder-try",
               "sign1-builder-try-detached", "sign-builder-try-detached"}
 MacRoutes == {"free-mac", "free-mac0", "mac-lit", "mac0-lit", "mac-builder", "mac0-builder", "mac-builder-try", "mac0-builder-try"}
+RbxRoutes == {"rbx-c-mac", "rbx-c-rec", "rbx-c-encrypt0", "rbx-t-enc", "rbx-t-rec", "rbx-t-encrypt", "rbx-t-encrypt0"}
 EncRoutes == {"free-encrypt", "free-encrypt0", "free-enc-rec", "free-mac-rec", "free-rec-rec", "encrypt-lit", "encrypt0-lit",
               "recipient-lit-enc", "recipient-lit-mac", "recipient-lit-rec", "recipient-lit-badctx", "recipient-lit-badctx0",
               "encrypt-builder", "encrypt0-builder", "recipient-builder", "recipient-builder-badctx", "encrypt-builder-try", "recipient-builder-try"}
+             \cup RbxRoutes
 Routes == CASE Fam = "sig" -> SigRoutes [] Fam = "mac" -> MacRoutes [] Fam = "enc" -> EncRoutes
+
+(* the rest of the matrix {create_ciphertext, try_create_ciphertext} x five contexts on the recipient builder (round 5 of the
+   seeded changes: the context check dropped from the fallible twin only); the three routes above are the other cells *)
+RbxTab == [r \in {"rbx-c-mac", "rbx-c-rec", "rbx-c-encrypt0", "rbx-t-enc", "rbx-t-rec", "rbx-t-encrypt", "rbx-t-encrypt0"} |->
+   CASE r = "rbx-c-mac" -> <<"create_ciphertext", "MacRecipient">> [] r = "rbx-c-rec" -> <<"create_ciphertext", "RecRecipient">>
+     [] r = "rbx-c-encrypt0" -> <<"create_ciphertext", "CoseEncrypt0">> [] r = "rbx-t-enc" -> <<"try_create_ciphertext", "EncRecipient">>
+     [] r = "rbx-t-rec" -> <<"try_create_ciphertext", "RecRecipient">> [] r = "rbx-t-encrypt" -> <<"try_create_ciphertext", "CoseEncrypt">>
+     [] r = "rbx-t-encrypt0" -> <<"try_create_ciphertext", "CoseEncrypt0">>]
 
 VARIABLE st
 (* one initial state per route, so that TLC's workers share the fan-out *)
@@ -147,12 +157,15 @@ Steps ==
          <<New("CoseRecipient"), SetProt,
            [ev |-> "call", m |-> IF st.r = "recipient-builder-try" THEN "try_create_ciphertext" ELSE "create_ciphertext", pt |-> Pl, aad |-> Aad, res |-> ROk,
             ctx |-> IF st.r = "recipient-builder-badctx" THEN "CoseEncrypt" ELSE IF st.r = "recipient-builder-try" THEN "MacRecipient" ELSE "EncRecipient"]>>
+    [] st.r \in RbxRoutes ->
+         <<New("CoseRecipient"), SetProt,
+           [ev |-> "call", m |-> RbxTab[st.r][1], pt |-> Pl, aad |-> Aad, res |-> IF st.r = "rbx-t-rec" THEN RErr ELSE ROk, ctx |-> RbxTab[st.r][2]]>>
 
 (* builder routes only make sense for bodies built in memory *)
 Applicable == IF st.r \in {"sign1-builder", "sign1-builder-detached", "sign1-builder-try", "sign-builder", "sign-builder-detached", "sign-builder-try",
                            "sign1-builder-try-detached", "sign-builder-try-detached",
                            "mac-builder", "mac0-builder", "mac-builder-try", "mac0-builder-try", "encrypt-builder", "encrypt0-builder",
-                           "encrypt-builder-try", "recipient-builder", "recipient-builder-badctx", "recipient-builder-try"}
+                           "encrypt-builder-try", "recipient-builder", "recipient-builder-badctx", "recipient-builder-try"} \cup RbxRoutes
               THEN Body.orig = <<>> ELSE TRUE
 
 Observed == RunObs(InitState, Steps, <<>>)
@@ -165,9 +178,9 @@ CtxText == CASE st.r \in {"free-sign1", "free-sign1-withsign", "sign1-lit", "sig
              [] st.r \in {"free-mac0", "mac0-lit", "mac0-builder", "mac0-builder-try"} -> "MAC0"
              [] st.r \in {"free-encrypt", "encrypt-lit", "encrypt-builder", "encrypt-builder-try"} -> "Encrypt"
              [] st.r \in {"free-encrypt0", "encrypt0-lit", "encrypt0-builder"} -> "Encrypt0"
-             [] st.r \in {"free-enc-rec", "recipient-lit-enc", "recipient-builder"} -> "Enc_Recipient"
-             [] st.r \in {"free-mac-rec", "recipient-lit-mac", "recipient-builder-try"} -> "Mac_Recipient"
-             [] st.r \in {"free-rec-rec", "recipient-lit-rec"} -> "Rec_Recipient"
+             [] st.r \in {"free-enc-rec", "recipient-lit-enc", "recipient-builder", "rbx-t-enc"} -> "Enc_Recipient"
+             [] st.r \in {"free-mac-rec", "recipient-lit-mac", "recipient-builder-try", "rbx-c-mac"} -> "Mac_Recipient"
+             [] st.r \in {"free-rec-rec", "recipient-lit-rec", "rbx-c-rec", "rbx-t-rec"} -> "Rec_Recipient"
              [] OTHER -> "none"
 HasSignSlot == st.r \in {"free-sign", "free-sign1-withsign", "free-counter", "sign-lit", "sign-lit-detached", "sign-builder", "sign-builder-detached", "sign-builder-try",
                          "sign-builder-try-detached"}
@@ -181,7 +194,7 @@ MustPanic ==
   \/ st.r \in {"sign1-builder-detached", "sign-builder-detached"} /\ FALSE
   \/ Fam = "mac" /\ st.r \notin {"free-mac", "free-mac0"} /\ ~HasPl
   \/ st.r \in {"encrypt-lit", "encrypt0-lit", "recipient-lit-enc", "recipient-lit-mac", "recipient-lit-rec", "recipient-lit-badctx", "recipient-lit-badctx0"} /\ ~HasPl
-  \/ st.r \in {"recipient-lit-badctx", "recipient-lit-badctx0", "recipient-builder-badctx"}
+  \/ st.r \in {"recipient-lit-badctx", "recipient-lit-badctx0", "recipient-builder-badctx", "rbx-c-encrypt0", "rbx-t-encrypt", "rbx-t-encrypt0"}
 (* every observation that carries a structure carries exactly the RFC bytes; refusals are exactly the documented ones *)
 StructOf(o) == IF o.bytes # <<>> THEN <<o.bytes[1]>> ELSE IF o.cb # <<>> THEN <<Last(o.cb)>> ELSE <<>>
 Prop == CASE Fam = "sig" -> "C03" [] Fam = "mac" -> "C04" [] Fam = "enc" -> "C05"
